@@ -118,6 +118,7 @@ def modelStep (st : St) (op impl : List String) : St × Option String :=
       | _ => none
     let (m', r) := _root_.Sapi.write m (bv16 si) (Drv.Assoc.bv32 ppi) (parseNat! len) d
     ({ st with m := m' }, some (wresStr r))
+  | ["bytes", _] => (st, some "ok")    -- the byte copy of packetize is outside the model: the expected answer is always ok
   | ["wret", wid] =>
     let (r, rest) := takeRet st.wrets (parseNat! wid)
     ({ st with wrets := rest }, some (match r with | some x => wresStr x | none => "still-parked"))
